@@ -834,6 +834,7 @@ func c06r4(c *Ctx) {
 		acc, refs := tf.Params[0], tf.Params[1]
 		var bad []string
 		var m *ssa.MakeMap
+		var mAlias ssa.Value
 		for _, rc := range p.pfReturnCases(tf) {
 			r := rc.Results[0]
 			if b, isC := constBool(r); isC {
@@ -846,23 +847,38 @@ func c06r4(c *Ctx) {
 				continue
 			}
 			x, nonEmptyWhenTrue, ok := lenCmp(r)
-			mm, isMap := x.(*ssa.MakeMap)
-			if !ok || !nonEmptyWhenTrue || !isMap {
+			// the set may be built by an extracted helper that returns it: the map is then known in
+			// tf as the helper's result and in the helper as the MakeMap
+			var mm *ssa.MakeMap
+			if ok {
+				if vals := p.possibleValuesX(x); len(vals) == 1 {
+					mm, _ = vals[0].(*ssa.MakeMap)
+				}
+			}
+			if !ok || !nonEmptyWhenTrue || mm == nil {
 				bad = append(bad, "result at "+p.IPos(rc.Ret)+" is not `len(<remaining objects>) > 0`")
 				continue
 			}
 			m = mm
+			if stripConv(x) != ssa.Value(mm) {
+				mAlias = stripConv(x)
+			}
 		}
 		if m != nil {
 			inserts := 0
-			for _, r := range referrersOf(m) {
+			refsOfMap := referrersOf(m)
+			if mAlias != nil {
+				refsOfMap = append(append([]ssa.Instruction{}, refsOfMap...), referrersOf(mAlias)...)
+			}
+			for _, r := range refsOfMap {
 				switch x := r.(type) {
 				case *ssa.MapUpdate:
 					inserts++
-					inner := innermostLoop(tf, x.Block())
+					bf := x.Parent() // the function that fills the set: tf or the extracted builder
+					inner := innermostLoop(bf, x.Block())
 					okNest := false
 					if inner != nil {
-						for _, l := range loopsOf(tf) {
+						for _, l := range loopsOf(bf) {
 							if l == inner || !l.Body[inner.Head] {
 								continue
 							}
@@ -871,7 +887,7 @@ func c06r4(c *Ctx) {
 							for b := range l.Body {
 								for _, in := range b.Instrs {
 									if ia, isIA := in.(*ssa.IndexAddr); isIA {
-										if pfAccessorOnParam(ia.X, "GetPhases") == acc {
+										if prm := pfAccessorOnParam(ia.X, "GetPhases"); prm != nil && (prm == acc || stripConv(p.mwThroughParam(prm)) == stripConv(p.mwThroughParam(acc))) {
 											outerOK = true
 										}
 									}
